@@ -225,12 +225,13 @@ impl Resolver<'_> {
             closure.params.insert(closure.args.len() - 1, param);
         }
         // report the alphabetically first unknown argument: HashMap iteration order is not stable
-        if let Some(name) = named_args.into_keys().min() {
+        if let Some((name, arg)) = named_args.into_iter().min_by(|a, b| a.0.cmp(&b.0)) {
             // TODO: report all remaining named_args as separate errors
             return Err(Error::new_simple(format!(
                 "unknown named argument `{name}` to closure {:?}",
                 closure.name_hint
-            )));
+            ))
+            .with_span(arg.span));
         }
 
         // positional
